@@ -1,0 +1,9 @@
+//go:build verif
+
+package bits
+
+// Frames of the bit writer (needed by callers that must keep unrelated byte memory, e.g. string contents, across an encode).
+//@ func (*Writer).Write
+//@   assigns w.v, w.n, w.err, w.out[:], ghost(w.wr).wlen, ghost(w.wr).wz, ghost(w.wr).wlegal, ghost(w.wr).wesc, ghost(w.wr).wtight, ghost(w.wr).pay, ghost(w.wr).plen, ghost(w.wr).wdata, ghost(w.wr).tr
+//@ func (*Writer).Flush
+//@   assigns w.err, ghost(w.wr).wlen, ghost(w.wr).wz, ghost(w.wr).wlegal, ghost(w.wr).wesc, ghost(w.wr).wtight, ghost(w.wr).pay, ghost(w.wr).plen, ghost(w.wr).wdata, ghost(w.wr).tr
